@@ -78,7 +78,7 @@ func (g *goGen) scalar() (interface{}, V) {
 		b := g.r.Intn(2)
 		return b == 1, V{"bool", b}
 	case 14:
-		ord, z := g.r.Intn(len(g.u.times)), g.r.Intn(len(zoneTable))
+		ord, z := g.r.Intn(len(g.u.times)), g.r.Intn(genZones)
 		return g.u.timeOf(ord, z), V{"time", ord, z}
 	}
 	return nil, V{"nil"}
@@ -336,7 +336,7 @@ func (g *goGen) structValue(depth int) (interface{}, V) {
 			ip = &in2
 			ipA = V{"ptr", in2A}
 		}
-		tord, tz := g.r.Intn(len(g.u.times)), g.r.Intn(len(zoneTable))
+		tord, tz := g.r.Intn(len(g.u.times)), g.r.Intn(genZones)
 		t := g.u.timeOf(tord, tz)
 		var pt *time.Time
 		ptA := V{"nilptr"}
@@ -489,6 +489,7 @@ func auxDocPath(r *rand.Rand, n int, emit func(E), stats map[string]int) {
 			g.smallN = append(g.smallN, ord)
 		}
 	}
+	gg := &goGen{r: r, u: u}
 	paths := []string{"a", "a.b", "a.b.c", "b", "a.c", "", "a..b", "x.y", "b.a", ".", "a.", ".a"}
 	for i := 0; i < n; i++ {
 		d := document.NewDocument()
@@ -496,8 +497,9 @@ func auxDocPath(r *rand.Rand, n int, emit func(E), stats map[string]int) {
 		m := 1 + r.Intn(6)
 		for s := 0; s < m; s++ {
 			p := paths[r.Intn(len(paths))]
-			v := g.value(2)
-			d.Set(p, u.Gamma(v))
+			// any Go value, supported or not: an unsupported one must leave the document unchanged
+			gv, ga := gg.value(2)
+			d.Set(p, gv)
 			probes := make([]interface{}, 0)
 			for _, q := range paths {
 				has := 0
@@ -510,7 +512,7 @@ func auxDocPath(r *rand.Rand, n int, emit func(E), stats map[string]int) {
 			for _, f := range d.Fields(false) {
 				fields = append(fields, B(f))
 			}
-			steps = append(steps, E{"path": B(p), "val": v, "probes": probes, "fields": fields})
+			steps = append(steps, E{"path": B(p), "g": ga, "probes": probes, "fields": fields})
 		}
 		emit(E{"kind": "docpath", "steps": steps})
 		stats["docpath"]++
